@@ -21,6 +21,7 @@
 -/
 import LccModel.Proto
 import LccModel.Model.Threads
+import LccModel.Model.FixtureDecl
 open Lean LccModel LccModel.Proto LccModel.Threads.Factory
 
 /-- Re-tabulate the function-valued fields (extensionally the identity on thread ids < nT and object ids
@@ -96,6 +97,12 @@ def replay (nT nO : Nat) (snap : Option (List Nat)) (implicitTd : Bool) (labels 
         | _ =>
           let s1 ← flushUntil nT nO snap t o (nO + 2) s
           doStep nT nO s1 (.getRet t o) s!"ret {t} {o}"
+      | "append" =>
+        -- `self._objects.append(obj)` observed (the factory stream records it): the slot write precedes it
+        let s1 ← (match s.pc t with
+          | .created _ => doStep nT nO s (.writeSlot t) s!"writeSlot {t} (before the observed append)"
+          | _ => .ok s)
+        doStep nT nO s1 (.append t) s!"append {t}"
       | "tdbegin" => doStep nT nO s (.tdBegin t) s!"tdbegin {t}"
       | "td" =>
         let o ← a[2]!.getNat?
@@ -148,12 +155,65 @@ def handleOne (j : Json) : Except String Json := do
     ("td_outcomes", Json.arr (s.tdOutcomes.map optNat).toArray),
     ("quiescent", Json.bool ((List.range nT).all (fun t => s.pc t == .idle)))])
 
-/-- `{"multi": [request, …]}` (one per factory instance of a real run) or a single request -/
+/-! ### validation of the declared fixtures (`PreparedProject._build_fixture_registry` + `check_dependencies`) -/
+
+def getStrs (j : Json) (k : String) : Except String (List String) := do
+  let a ← getArr j k
+  a.toList.mapM (fun x => x.getStr?)
+
+def parseScope (s : String) : Except String Fixture.Scope :=
+  match s with
+  | "test" => pure .test | "suite" => pure .suite | "session" => pure .session | "pre_run" => pure .preRun
+  | _ => throw s!"unknown scope {s}"
+
+def parseDecl (j : Json) : Except String Fixture.Decl := do
+  pure ⟨← getStrs j "names", ← parseScope (← getStr j "scope"), ← getBool j "per_thread", ← getStrs j "params"⟩
+
+def fixtureErrStr : Fixture.Err → String
+  | .builtinName n => s!"builtinName:{n}" | .forbiddenName n => s!"forbiddenName:{n}" | .circular f => s!"circular:{f}"
+  | .unknownParam p f => s!"unknownParam:{p}:{f}" | .perThreadDep f d => s!"perThreadDep:{f}:{d}"
+  | .scopeInversion f d => s!"scopeInversion:{f}:{d}" | .suiteUnknown s f => s!"suiteUnknown:{s}:{f}"
+  | .suitePerThread s f => s!"suitePerThread:{s}:{f}" | .suiteScope s f => s!"suiteScope:{s}:{f}"
+  | .testUnknown t f => s!"testUnknown:{t}:{f}" | .keyError n => s!"CRASH-KeyError:{n}" | .outOfFuel => "CRASH-RecursionError"
+
+def parseFTest (j : Json) : Except String Fixture.Test := do
+  pure ⟨← getStr j "path", ← getStrs j "args", ← getStrs j "parameters", ← getBool j "disabled"⟩
+
+partial def parseFSuite (j : Json) : Except String Fixture.Suite := do
+  let tests ← (← getArr j "tests").toList.mapM parseFTest
+  let subs ← (← getArr j "subs").toList.mapM parseFSuite
+  pure (.mk (← getStr j "path") (← getBool j "disabled") (← getStrs j "injected") (← getStrs j "setup_args") tests subs)
+
+/-- `{"decls": [{names, scope, per_thread, params}, …], "suites": [suite tree]}` → what the decorator,
+    `check_dependencies` and `check_fixtures_in_suites` say, in the order of `PreparedProject.create` -/
+def handleValidate (j : Json) : Except String Json := do
+  let decls ← (← getArr j "decls").toList.mapM parseDecl
+  let suites ← (match j.getObjVal? "suites" with
+    | .ok (.arr a) => a.toList.mapM parseFSuite
+    | _ => pure [])
+  match decls.find? (fun d => !Fixture.declAllowed d.scope d.perThread) with
+  | some d => pure (Json.mkObj [("verdict", Json.str s!"declRefused:{d.names}")])
+  | none =>
+    match Fixture.build decls with
+    | .error e => pure (Json.mkObj [("verdict", Json.str (fixtureErrStr e))])
+    | .ok R =>
+      match Fixture.checkDependencies R with
+      | .error e => pure (Json.mkObj [("verdict", Json.str (fixtureErrStr e))])
+      | .ok () =>
+        match Fixture.checkFixturesInSuites R suites with
+        | .error e => pure (Json.mkObj [("verdict", Json.str (fixtureErrStr e))])
+        | .ok () => pure (Json.mkObj [("verdict", Json.str "accepted")])
+
+/-- `{"multi": [request, …]}` (one per factory instance of a real run; optionally with `"validate": {decls}`) or a single
+    request -/
 def handle (j : Json) : Except String Json :=
   match j.getObjVal? "multi" with
   | .ok (.arr a) => do
     let rs ← a.toList.mapM handleOne
-    pure (Json.mkObj [("multi", Json.arr rs.toArray)])
+    let v ← (match j.getObjVal? "validate" with
+      | .ok vj => do let r ← handleValidate vj; pure [("validate", r)]
+      | .error _ => pure [])
+    pure (Json.mkObj ([("multi", Json.arr rs.toArray)] ++ v))
   | _ => handleOne j
 
 def main : IO Unit := loop (wrap handle)
